@@ -446,4 +446,64 @@ theorem selfMatch_drops_value :
     w.current = some 1 ∧ w.ghost.dropped.map (·.value) = [Val.take 0 5] ∧ w.ghost.received = [(1, 7)] ∧
     w.ghost.handed = [(0, 5), (1, 7)] ∧ w.ghost.pushed = [(0, 5), (1, 7)] := by decide
 
+/-! ## supervisor events, rselect, close with buffered items -/
+
+/-- the supervisor event of a finished fiber (`janet_channel_push(chan, event, 2)` from the run phase) on an OPEN channel
+    is never dropped and never waits, whatever the capacity: it is logged as pushed and is either appended to the items
+    or handed to a waiting taker; no pending-writer entry is added (mode 2: there is no root fiber to register). -/
+theorem supervisor_event_delivered (w : World) (c x : Nat) (ho : (w.chans c).closed = false) :
+    let w' := (supPush currentCfg w c x).1
+    w'.ghost.pushed = w.ghost.pushed ++ [(c, x)] ∧
+    ((w'.ghost.handed = w.ghost.handed ∧ (w'.chans c).items = (w.chans c).items ++ [x] ∧
+        (w'.chans c).writePending = (w.chans c).writePending) ∨
+     (w'.ghost.handed = w.ghost.handed ++ [(c, x)] ∧ (w'.chans c).items = (w.chans c).items)) := by
+  intro w'
+  obtain ⟨w1, b, hp⟩ := Ev.chanPush_open (cfg := currentCfg) w 0 c x 2 ho
+  have hw' : w' = w1 := by show (supPush currentCfg w c x).1 = w1; unfold supPush; rw [hp]
+  rw [hw']
+  obtain ⟨_, hpu, _, hcase⟩ := Ev.chanPush_cases currentCfg (by decide) w 0 c x 2 w1 b hp
+  refine ⟨hpu, ?_⟩
+  rcases hcase with ⟨_, _, _, hh, _, _, hit, _, _, hwp⟩ | ⟨r, rest, _, _, hh, hw1⟩
+  · left; refine ⟨hh, hit, ?_⟩; rw [hwp]; simp
+  · right; refine ⟨hh, ?_⟩
+    rw [hw1, Ev.schedule_chans]; simp [addHanded, setChan, addPushed]
+
+/-- ... and into a CLOSED supervisor channel nothing is pushed and nothing else changes (source with the guard; without it
+    janet_panic outside any fiber ended the thread: defect fixed by 046c08b) -/
+theorem closed_supervisor_event_skipped (w : World) (c x : Nat) (hc : (w.chans c).closed = true) :
+    supPush currentCfg w c x = (w, .done) := by
+  unfold supPush chanPush; simp [hc]
+
+/-- `ev/rselect` = `ev/select` after a shuffle of the clauses: whatever permutation the shuffle produces, the select
+    names the same channels (so `noSelfMatch` is unaffected) and registers the fiber as reader / writer on the same
+    channels - every theorem above, being stated for an arbitrary clause list, holds for every permutation. -/
+theorem rselect_any_order (cls cls' : List Clause) (hp : cls'.Perm cls) :
+    ((Action.select cls').noSelfMatch ↔ (Action.select cls).noSelfMatch) ∧
+    (∀ c, c ∈ (Action.select cls').readChans ↔ c ∈ (Action.select cls).readChans) ∧
+    (∀ c, c ∈ (Action.select cls').writeChans ↔ c ∈ (Action.select cls).writeChans) := by
+  refine ⟨?_, ?_, ?_⟩
+  · exact (hp.map Clause.chan).nodup_iff
+  · intro c; exact (hp.filterMap _).mem_iff
+  · intro c; exact (hp.filterMap _).mem_iff
+
+/-- `ev/chan-close` on a channel with buffered items: the items stay in the queue, and every later take returns nil at
+    once without touching them (janet_channel_pop_with_lock tests `closed` first) - buffered items of a closed channel are
+    never delivered (conservation counts them as still queued). -/
+theorem close_keeps_items_take_gets_nil (w : World) (f c : Nat) :
+    ((chanClose currentCfg w c).chans c).items = (w.chans c).items ∧
+    ((chanClose currentCfg w c).chans c).closed = true ∧
+    chanPop currentCfg (chanClose currentCfg w c) f c 0 = .got (chanClose currentCfg w c) none := by
+  have hcl : ((chanClose currentCfg w c).chans c).closed = true ∧ ((chanClose currentCfg w c).chans c).items = (w.chans c).items := by
+    unfold chanClose
+    by_cases h : (w.chans c).closed = true
+    · simp [h]
+    · simp only [h, Bool.false_eq_true, ↓reduceIte]
+      rw [(Ev.closeWake_fold_view currentCfg c false _ _).1, (Ev.closeWake_fold_view currentCfg c true _ _).1]
+      simp [setChan]
+  refine ⟨hcl.2, hcl.1, ?_⟩
+  unfold chanPop; simp [hcl.1]
+
+example : let w := (supPush Cfg.good (World.start fun _ => 0) 0 90010).1
+          (w.chans 0).items = [90010] ∧ (w.chans 0).writePending = [] ∧ w.ghost.pushed = [(0, 90010)] := by decide
+
 end JanetModel.Props.C06
